@@ -176,8 +176,36 @@ func sqlRun(args []string) error {
 			if cnt, ok := c["count_only"].(bool); ok && cnt {
 				r.Records = nil // long inputs: report the number of rows only
 			}
+			var bag []interface{}
+			if b, ok := c["bag"].(bool); ok && b {
+				// long inputs: report every distinct row once with its net multiplicity (additions minus retractions)
+				counts := map[string]int{}
+				reps := map[string]interface{}{}
+				var order []string
+				for _, rec := range r.Records {
+					v := vals.FromValues(rec.Values)
+					kb, _ := json.Marshal(v)
+					k := string(kb)
+					if _, seen := counts[k]; !seen {
+						order = append(order, k)
+						reps[k] = v
+					}
+					if rec.Retraction {
+						counts[k]--
+					} else {
+						counts[k]++
+					}
+				}
+				for _, k := range order {
+					bag = append(bag, map[string]interface{}{"v": reps[k], "n": counts[k]})
+				}
+				r.Records = nil
+			}
 			results[i] = resultJSON(c["id"], r)
 			results[i]["nrows"] = n
+			if bag != nil {
+				results[i]["bag"] = bag
+			}
 		}(i, c, tabs)
 	}
 	wg.Wait()
